@@ -318,8 +318,6 @@ func compareAft(c *Case, e *Exp, o *Obs) string {
 		return "crash"
 	case "broken":
 		return "broken"
-	case "throw":
-		return "throw"
 	}
 	if e.Any {
 		return ""
@@ -330,6 +328,9 @@ func compareAft(c *Case, e *Exp, o *Obs) string {
 	if !ok1 || !ok2 || pv != canon(e.Base.Res) || pa != canon(e.Base.After) {
 		o.Kind = "base-mismatch"
 		return ""
+	}
+	if o.Kind == "throw" {
+		return "throw"
 	}
 	v, _ := canonOf(o.Res)
 	r, _ := canonOf(o.After)
